@@ -370,12 +370,20 @@ def build(tier):
     vf.add_piece(p)
     vf.add("}\n")
     vf.add(SPECS)
-    vhelp.typedef(vf, src, "LifetimeTransitivityIterator", "struct",
-                  subs=[("E1", r"\n    (env|visited|queue|longer):", r"\n    pub \1:")])
+    ci = src.item("INLINE_NUM_LIFETIMES", "const")
+    vf.add("pub " + src.slice(ci["after_attrs"], ci["end"]).strip().replace("pub(crate) ", "") + "\n",
+           origin={"file": F, "item": "INLINE_NUM_LIFETIMES", "line": src.line_of(ci["start"]), "end_line": src.line_of(ci["end"])})
+    it_struct = src.item("LifetimeTransitivityIterator", "struct")
+    pst = Piece(src, it_struct)
+    pst.sub("E1", r"\A(\s*)struct ", r"\1pub struct ", count=1)
+    pst.sub("E1", r"\n    (env|visited|queue|longer):", r"\n    pub \1:", count=4)
+    pst.sub("E3", r"SmallVec<\[([A-Za-z]+); [A-Z_0-9]+\]>", r"Vec<\1>", count=None, why="SmallVec -> Vec")
+    vf.add_piece(pst, under_contract=False)
     vf.add(INV_SPEC)
     vf.add("impl<'env> LifetimeTransitivityIterator<'env> {\n")
     p = Piece(src, src.item("impl LifetimeTransitivityIterator<'env>::new", "fn"))
     p.contract(NEW_CONTRACT, ret_name="r")
+    p.sub("E3", r"smallvec!\[", "vec![", count=None, why="SmallVec -> Vec")
     vf.add_piece(p, expected="new")
     it = src.item("impl Iterator for LifetimeTransitivityIterator<'env>::next", "fn")
     p = Piece(src, it)
